@@ -20,14 +20,16 @@ LEVEL = 'exploration'
 ENGINE = 'E2 diffexplore'
 TECHNIQUE = 'exhaustive init x transformer-template sequences x boundary iteration counts, infer_types=None build vs infer_types=False build (CPython as arbiter)'
 LEVEL_TEXT = ('Every function made of one initialisation of an untyped local (literals, argument, typed-helper results) and every '
-              'sequence of <= 2 transformer templates (18 quick / 28 thorough: growing loops, conditional rebinds to other types, '
+              'sequence of <= 2 transformer templates (21 quick / 31 thorough: growing loops, hash-style loops with the variable under '
+              '^ | & inside a multiplication, conditional rebinds to other types, '
               'division/power/shift/modulo, offsets around 2**31, bool mixing, loop-variable reuse, closure capture; thorough adds '
               'all inits and triples over a reduced set) is compiled with infer_types=None and with infer_types=False and run '
               'for every iteration count in {0,1,2,31,32,62,63,64,65,100}; the (type, value) outcome or exception type of the two '
               'builds must be identical for every input (CPython on the same source tells which build deviates).')
 LEVEL_NOTE = ('Template sequences of bounded length over one main variable (plus loop counters); no explicit C types (outside the '
               'property).  A str rebind is only generated as the last transformer (doubling a string 100 times is a memory bomb in '
-              'CPython itself).  Divergences from CPython that both builds share are counted in the evidence, not reported (C01 '
+              'CPython itself); bitwise/shift templates are not generated after a float-producing template (Cython rejects `double | int` '
+              'at compile time where CPython raises TypeError at run time: by design).  Divergences from CPython that both builds share are counted in the evidence, not reported (C01 '
               'covers them).  Trusted: CPython 3.12 as arbiter, gcc.')
 
 PRELUDE = 'from props._g6_rt import D\n'
@@ -65,6 +67,10 @@ TRANS = [
     ('boolmul', 'x = x * (n > 1)'),
     ('loopvar', 'for x in range(n):\n    pass'),
     ('closure', 'def g():\n    return x * 2\nx = g()'),
+    # the loop-carried variable occurs only under a bitwise operator inside the overflowing arithmetic
+    ('xormul', 'for i in range(n):\n    x = (x ^ i) * 16777619'),
+    ('ormul', 'for _ in range(n):\n    x = (x | 1) * 3'),
+    ('andmul', 'for _ in range(n):\n    x = (x & 281474976710655) * 16777619 + (x >> 3)'),
     # thorough only below
     ('tri', 'for _ in range(n):\n    x = x * 3 + 1'),
     ('twopow', 'x = 2 ** n'),
@@ -77,7 +83,7 @@ TRANS = [
     ('strlen', 't = ""\nfor i in range(n):\n    t += "ab"\nx = x + len(t)'),
     ('idiv', 'x /= 1'),
 ]
-N_TRANS_Q = 18
+N_TRANS_Q = 21
 LAST_ONLY = [('tostr', 'if n > 2:\n    x = "a"')]       # only ever the last transformer
 TRIPLE_SET = ('dbl', 'sq', 'fib', 'toint', 'tofloat', 'div', 'addc', 'loopvar')
 
@@ -98,7 +104,23 @@ def family(tier):
         for iname, isrc in INITS[:4]:
             for a, b, c in itertools.product(tr, tr, tr):
                 out.append(('%s;%s;%s;%s' % (iname, a[0], b[0], c[0]), [isrc, a[1], b[1], c[1]]))
-    return out
+    return [(tag, lines) for tag, lines in out if not _bitwise_on_float(tag)]
+
+
+_FLOATY = {'flt', 'f15', 'divn', 'addhalf', 'tofloat', 'div', 'negpow', 'idiv'}
+_BITWISE = {'xormul', 'ormul', 'andmul', 'shl'}
+
+
+def _bitwise_on_float(tag):
+    """x |= .. / x << .. after x may have become a float: CPython raises TypeError only when the statement is reached with a
+    float, Cython (having inferred `double`) rejects the function at compile time - by design, not generated."""
+    seen_float = False
+    for part in tag.split(';'):
+        if part in _BITWISE and seen_float:
+            return True
+        if part in _FLOATY:
+            seen_float = True
+    return False
 
 
 def render(name, lines):
